@@ -452,101 +452,45 @@ func (a *List) M__ge__(other Object) (Object, error) {
 	return NotImplemented, nil
 }
 
-type sortable struct {
-	l        *List
-	keyFunc  Object
+// keySortable sorts items by their keys: each key was computed once,
+// before the sort, and items and keys move together.
+type keySortable struct {
+	items    []Object
+	keys     []Object // the items themselves without a key function
+	hasKeys  bool
 	reverse  bool
 	firstErr error
 }
 
-type ptrSortable struct {
-	s *sortable
+func (s *keySortable) Len() int {
+	return len(s.items)
 }
 
-func (s ptrSortable) Len() int {
-	return s.s.l.Len()
-}
-
-func (s ptrSortable) Swap(i, j int) {
-	itemI, err := s.s.l.M__getitem__(Int(i))
-	if err != nil {
-		if s.s.firstErr == nil {
-			s.s.firstErr = err
-		}
-		return
-	}
-	itemJ, err := s.s.l.M__getitem__(Int(j))
-	if err != nil {
-		if s.s.firstErr == nil {
-			s.s.firstErr = err
-		}
-		return
-	}
-	_, err = s.s.l.M__setitem__(Int(i), itemJ)
-	if err != nil {
-		if s.s.firstErr == nil {
-			s.s.firstErr = err
-		}
-	}
-	_, err = s.s.l.M__setitem__(Int(j), itemI)
-	if err != nil {
-		if s.s.firstErr == nil {
-			s.s.firstErr = err
-		}
+func (s *keySortable) Swap(i, j int) {
+	s.items[i], s.items[j] = s.items[j], s.items[i]
+	if s.hasKeys {
+		s.keys[i], s.keys[j] = s.keys[j], s.keys[i]
 	}
 }
 
-func (s ptrSortable) Less(i, j int) bool {
-	itemI, err := s.s.l.M__getitem__(Int(i))
-	if err != nil {
-		if s.s.firstErr == nil {
-			s.s.firstErr = err
-		}
+func (s *keySortable) Less(i, j int) bool {
+	if s.firstErr != nil {
 		return false
 	}
-	itemJ, err := s.s.l.M__getitem__(Int(j))
-	if err != nil {
-		if s.s.firstErr == nil {
-			s.s.firstErr = err
-		}
-		return false
-	}
-
-	if s.s.keyFunc != None {
-		itemI, err = Call(s.s.keyFunc, Tuple{itemI}, nil)
-		if err != nil {
-			if s.s.firstErr == nil {
-				s.s.firstErr = err
-			}
-			return false
-		}
-		itemJ, err = Call(s.s.keyFunc, Tuple{itemJ}, nil)
-		if err != nil {
-			if s.s.firstErr == nil {
-				s.s.firstErr = err
-			}
-			return false
-		}
-	}
-
 	var cmpResult Object
-	if s.s.reverse {
-		cmpResult, err = Lt(itemJ, itemI)
+	var err error
+	if s.reverse {
+		cmpResult, err = Lt(s.keys[j], s.keys[i])
 	} else {
-		cmpResult, err = Lt(itemI, itemJ)
+		cmpResult, err = Lt(s.keys[i], s.keys[j])
 	}
-
 	if err != nil {
-		if s.s.firstErr == nil {
-			s.s.firstErr = err
-		}
+		s.firstErr = err
 		return false
 	}
-
 	if boolResult, ok := cmpResult.(Bool); ok {
 		return bool(boolResult)
 	}
-
 	return false
 }
 
@@ -570,7 +514,33 @@ func SortInPlace(l *List, kwargs StringDict, funcName string) error {
 	if err != nil {
 		return err
 	}
-	s := ptrSortable{&sortable{l, keyFunc, ok, nil}}
-	sort.Stable(s)
-	return s.s.firstErr
+	// The list is detached while it is sorted, as in CPython: code run
+	// by the key function or by a comparison sees an empty list, what
+	// it does to the list is discarded, and having done it is an error.
+	items := l.Items
+	l.Items = nil
+	keys := items
+	if keyFunc != None {
+		keys = make([]Object, len(items))
+		for i, item := range items {
+			keys[i], err = Call(keyFunc, Tuple{item}, nil)
+			if err != nil {
+				l.Items = items
+				return err
+			}
+		}
+	}
+	s := &keySortable{items: items, keys: keys, hasKeys: keyFunc != None, reverse: ok}
+	if len(items) > 1 {
+		sort.Stable(s)
+	}
+	modified := l.Items != nil
+	l.Items = items
+	if s.firstErr != nil {
+		return s.firstErr
+	}
+	if modified {
+		return ExceptionNewf(ValueError, "list modified during sort")
+	}
+	return nil
 }
